@@ -1324,6 +1324,8 @@ class Worker(actor.RallyActor):
                     self.send(self.driver_actor, actor.BenchmarkFailure(f"Error in load generator [{self.worker_id}]", str(e)))
                 else:
                     self.logger.debug("Worker[%s] is ready for the next task.", str(self.worker_id))
+                    # the load generator may have produced more samples (and finished) since we have sent samples above
+                    self.send_samples()
                     self.executor_future = None
                     self.drive()
             else:
